@@ -129,6 +129,13 @@ func vfC22ProbeList() []vfProbe {
 					vfOp("in", vfColRef("b"), vfConst(vfEmptyLit), vfConst(vfS("A"))),
 					vfOp("gt", vfColRef("k"), vfConst(vfInt(0)))))
 			}},
+		{"leftjoin-disjoint-union-lookup", // x leftjoin ((t where a is 1) union (t where a is 2))
+			[]*vfTable{vfMkTable("t", vfNums("k", "a", "b"), [][]string{{"k"}}, [][]string{{"b"}}, vfInts(1, 1, 5), vfInts(2, 2, 5), vfInts(3, 3, 6)),
+				vfMkTable("x", vfNums("k", "a", "b", "z"), [][]string{{"z"}}, nil, vfInts(1, 1, 5, 1), vfInts(3, 3, 6, 2))},
+			func() *vfNode {
+				w := func(n int) *vfNode { return vfWhere(vfT("t"), vfOp("is", vfColRef("a"), vfConst(vfInt(n)))) }
+				return vfBin("leftjoin", vfT("x"), vfBin("union", w(1), w(2)))
+			}},
 		// a few healthy ones: documented examples in small
 		{"leftjoin-where-right-is-empty", // rows without partner have "" on the right: where z is "" keeps exactly them
 			[]*vfTable{tk("t", vfInts(1, 5), vfInts(2, 6)), vfMkTable("u", vfNums("k", "z"), [][]string{{"k"}}, nil, vfInts(2, 1))},
@@ -145,12 +152,30 @@ func vfC22ProbeList() []vfProbe {
 }
 
 func vfC22Probes(rep *vk.Report, th *Thread) {
-	for i, p := range vfC22ProbeList() {
+	probes := vfC22ProbeList()
+	// x semijoin by(h) y sort e: 30 rows in x, 2 in y, so that the reversed strategy is the cheap one
+	var xrows [][]vfLit
+	for i := 0; i < 30; i++ {
+		xrows = append(xrows, vfInts(i, i%3, 100-i))
+	}
+	probes = append(probes, vfProbe{"semijoin-by-sort", []*vfTable{
+		vfMkTable("x", vfNums("k", "h", "e"), [][]string{{"k"}}, [][]string{{"h"}}, xrows...),
+		vfMkTable("y", vfNums("h", "e", "z"), [][]string{{"z"}}, [][]string{{"e"}}, vfInts(1, 1, 1), vfInts(2, 0, 2))},
+		func() *vfNode {
+			n := vfBin("semijoin", vfT("x"), vfT("y"))
+			n.cols, n.printBy = []string{"h"}, true
+			return n
+		}})
+	for i, p := range probes {
 		d := &vfDB{tables: p.tables}
 		d.create(vk.RandFor(2201, i))
 		root := vfHand(d, p.query())
 		rep.Count("probes", 1)
-		vfC22Check(rep, d, -1-i, -1-i, &vfQuery{root: root}, vk.RandFor(2202, i), 10, th)
+		q := &vfQuery{root: root}
+		if p.name == "semijoin-by-sort" {
+			q.sort = []string{"e"}
+		}
+		vfC22Check(rep, d, -1-i, -1-i, q, vk.RandFor(2202, i), 10, th)
 		d.close()
 	}
 }
